@@ -39,6 +39,7 @@ pub fn run(table: &'static [GrammarEntry], ctxs: &[(usize, GCtx)], cr: &CaseRunn
         "C07" => run_c07(table, ctxs, cr, partial),
         "C13" => run_c13(table, ctxs, cr, partial),
         "C20" => run_c20(table, ctxs, cr, partial),
+        "C16" => run_c16(table, ctxs, cr, partial),
         _ => unreachable!(),
     }
 }
@@ -172,11 +173,17 @@ fn run_histories(cr: &CaseRunner, g: &GCtx, e: &RuleEntry, partial: &mut Partial
     let failed = RefCell::new(false);
     let acc = RefCell::new((0u64, Vec::<u64>::new(), 0u64));
     let last: RefCell<Option<(Vec<String>, Vec<u16>, Failure)>> = RefCell::new(None);
+    let want_sample = partial.samples.len() < 4;
+    let sample: RefCell<Option<serde_json::Value>> = RefCell::new(None);
     let result = runner.run(&history_strategy(16), |(bytes, order)| match history_case(g, e, &bytes, &order, &cfg, true) {
         Ok((out, ins)) => {
             if !*failed.borrow() {
                 let mut a = acc.borrow_mut();
                 a.0 += order.len() as u64 + ins.len() as u64;
+                if out.nontrivial && want_sample && sample.borrow().is_none() {
+                    *sample.borrow_mut() = Some(json!({"kind": "history", "grammar": g.text, "rule": e.rule, "inputs": ins,
+                        "order": order.iter().map(|ix| ((*ix as usize) * ins.len()) >> 16).collect::<Vec<_>>()}));
+                }
                 if out.nontrivial {
                     let parts: Vec<&[u8]> = ins.iter().map(|s| s.as_bytes()).collect();
                     a.1.push(hash_parts(&parts) ^ g.ghash);
@@ -196,6 +203,9 @@ fn run_histories(cr: &CaseRunner, g: &GCtx, e: &RuleEntry, partial: &mut Partial
     let a = acc.into_inner();
     partial.evaluations += a.0;
     partial.nontrivial.extend(a.1);
+    if let Some(sm) = sample.into_inner() {
+        partial.samples.push(sm);
+    }
     *partial.classes.entry("history_with_equal_length_inputs".into()).or_insert(0) += a.2;
     if let Err(TestError::Fail(..)) = result {
         if let Some((ins, order, f)) = last.into_inner() {
@@ -504,6 +514,35 @@ fn run_c13(table: &'static [GrammarEntry], ctxs: &[(usize, GCtx)], cr: &CaseRunn
 }
 
 // ------------------------------------------------------------------------------------------------
+// C16 (macro route): peginate!() expands to a parser with the same types and behaviour
+// ------------------------------------------------------------------------------------------------
+fn c16_case(table: &'static [GrammarEntry], a: &(usize, GCtx), b: &(usize, GCtx), rule: &str, input: &str) -> Result<CaseOut, Failure> {
+    let mut out = CaseOut::default();
+    let (ea, eb) = (find_rule(table, a.0, rule).unwrap(), find_rule(table, b.0, rule).unwrap());
+    let oa = observe(ea.parse, input, MODE_PLAIN, 0);
+    let ob = observe(eb.parse, input, MODE_PLAIN, 0);
+    if oa.result_key() != ob.result_key() {
+        return Err(fail(format!("peginate!() parser and library-route parser disagree for rule {} on {:?}", rule, input), oa.summary(), ob.summary()));
+    }
+    out.nontrivial = oa.ok && oa.debug.len() > 20 || (!oa.ok && oa.err_pos > 0);
+    out.classes.push(if oa.ok { "accept" } else { "reject" });
+    Ok(out)
+}
+
+fn run_c16(table: &'static [GrammarEntry], ctxs: &[(usize, GCtx)], cr: &CaseRunner, partial: &mut Partial) {
+    for (_k, members) in groups(ctxs) {
+        if members.len() != 2 {
+            continue;
+        }
+        let (a, b) = if members[0].1.spec.role == "library" { (members[0], members[1]) } else { (members[1], members[0]) };
+        let rules: Vec<&str> = table[a.0].rules.iter().map(|e| e.rule).filter(|r| find_rule(table, b.0, r).is_some()).collect();
+        for rule in rules {
+            run_loop(cr, &a.1, rule, cr.cases, partial, &mut |input| c16_case(table, a, b, rule, input), &mut |input, f| group_violation("C16", &[a, b], rule, input, f));
+        }
+    }
+}
+
+// ------------------------------------------------------------------------------------------------
 // C20: purity across histories and threads
 // ------------------------------------------------------------------------------------------------
 fn run_c20(table: &'static [GrammarEntry], ctxs: &[(usize, GCtx)], cr: &CaseRunner, partial: &mut Partial) {
@@ -541,6 +580,7 @@ fn run_c20(table: &'static [GrammarEntry], ctxs: &[(usize, GCtx)], cr: &CaseRunn
     let failed = RefCell::new(false);
     let acc = RefCell::new((0u64, Vec::<u64>::new(), 0u64));
     let last: RefCell<Option<serde_json::Value>> = RefCell::new(None);
+    let sched_sample: RefCell<Option<serde_json::Value>> = RefCell::new(None);
     let result = runner.run(&strat, |(pairs, nthreads, assign)| {
         let mut work: Vec<(fn(&str, u8, u64) -> crate::Raw, String, String, String)> = vec![];
         let mut same_len_pairs = 0;
@@ -619,6 +659,11 @@ fn run_c20(table: &'static [GrammarEntry], ctxs: &[(usize, GCtx)], cr: &CaseRunn
                 let parts: Vec<&[u8]> = work.iter().map(|w| w.3.as_bytes()).collect();
                 a.1.push(hash_parts(&parts) ^ nthreads as u64);
                 a.2 += 1;
+                if sched_sample.borrow().is_none() {
+                    *sched_sample.borrow_mut() = Some(json!({"kind": "schedule", "threads": nthreads, "items": work.len(),
+                        "first_items": work.iter().take(6).map(|w| json!({"grammar_id": w.1, "rule": w.2, "input": w.3})).collect::<Vec<_>>(),
+                        "assignment": per.iter().map(|v| v.len()).collect::<Vec<_>>()}));
+                }
             }
         }
         Ok(())
@@ -627,6 +672,9 @@ fn run_c20(table: &'static [GrammarEntry], ctxs: &[(usize, GCtx)], cr: &CaseRunn
     partial.evaluations += a.0;
     partial.nontrivial.extend(a.1);
     *partial.classes.entry("concurrent_round_with_equal_length_inputs".into()).or_insert(0) += a.2;
+    if let Some(sm) = sched_sample.into_inner() {
+        partial.samples.push(sm);
+    }
     if result.is_err() {
         if let Some(v) = last.into_inner() {
             partial.violations.push(v);
